@@ -42,7 +42,7 @@ var c10EdgePrograms = []string{
 	`a[0] + a[1]`, `a[0] - a[1]`, `a[0] * a[1]`, `a[0] / a[1]`, `a[0] % a[1]`, `-a[0] - a[1]`, `a[0] + a[1] + a[2]`, `a[0] * a[1] * a[2]`, `(a[0] - a[1]) / a[2]`,
 	`$power(a[0], 2)`, `$power(a[0], a[1])`, `$power(2, a[0])`, `$sqrt(a[0])`, `$abs(a[0]) + $abs(a[1])`, `$round(a[0], -300)`, `$round(a[0], -308)`, `$round(a[0], -307)`, `$round(a[0] + a[1], -306)`, `$round(a[0], 320)`, `$floor(a[0] * a[1])`, `$ceil(a[0] * 10)`, `$round(a[0] * 10, 2)`, `$floor(a[0]) + 1`, `$ceil(a[0] / a[1])`,
 	`$reduce(a, function($x, $y){$x + $y})`, `$reduce(a, function($x, $y){$x * $y})`, `$map(a, function($v){$v * 10})`, `$map(a, function($v){$v / 1e-10})`, `$sum($map(a, function($v){$v * 2}))`,
-	`$number($string(a[0]) & "0")`, `$number($string(a[0]) & "e10")`, `$formatNumber(a[0] * a[1], "0.0")`, `$string(a[0] * 10)`, `$formatBase(a[0] * 2, 16)`,
+	`$number($string(a[0]) & "0")`, `$number($string(a[0]) & "e10")`, `$number("-Infinity")`, `$number("Infinity")`, `$number("-inf")`, `$number("NaN")`, `$number("-1e999")`, `[$number("-INF")]`, `{"v": $number("+Inf")}`, `$number("0x1p1024")`, `$formatNumber(a[0] * a[1], "0.0")`, `$string(a[0] * 10)`, `$formatBase(a[0] * 2, 16)`,
 	`{"s": $sum(a), "m": $average(a)}`, `[a[0] * 2, a[1] * 2]`, `$sort(a)[0] + $sort(a)[-1]`, `a^(>$)[0] * 2`, `$zip(a, a).($[0] + $[1])`, `$toMillis($fromMillis(a[0]))`, `$fromMillis(a[0] * a[1])`,
 }
 
